@@ -27,6 +27,9 @@ const (
 	KindRLock
 	// KindTryRLock corresponds to RWMutex.TryRLock().
 	KindTryRLock
+	// KindAtomic corresponds to an operation on one of the types
+	// of package verifsync/atomic. Only Before() is called for it.
+	KindAtomic
 )
 
 // Hooks that are invoked around lock operations.
